@@ -251,7 +251,7 @@ let rec is_prefix (p : n list) (l : n list) : bool =
   match p, l with [], _ -> true | x :: r, y :: s -> x = y && is_prefix r s | _ :: _, [] -> false
 
 let mk_cfg arms (ztab : (n list * n list * n) list) cache : dcfg =
-  { d_arms = arms; d_cache = cache;
+  { d_arms = arms; d_cache = cache; d_refs = [];
     d_inflate = (fun rest -> match List.find_opt (fun (c, _, _) -> is_prefix c rest) ztab with
                            | Some (_, plain, consumed) -> Some (plain, consumed) | None -> None);
     d_float_text = rust_float_text; d_kcmp = cmp_owned; d_kinsert = map_insert;
@@ -301,7 +301,47 @@ let codec_case (line : string) : string =
                    let o = dres_str (decode (mk_cfg owned_arms (parse_ztab tl) []) data) in
                    Printf.sprintf "b=%s ; o=%s" b o
                | [] -> failwith "decb")
-  | "dec2" | "decb2" | "dect2" | "deca2" | "decf2" | "inflate" | "convh" -> "-"
+  | "dec2" | "decb2" | "dect2" | "deca2" | "decf2" | "inflate" | "convh" | "hdr" -> "-"
+  | "hdrdec" ->
+      let cache = ref [] in
+      let outs = List.map (fun h ->
+        let cfg = { (mk_cfg owned_arms [] !cache) with d_cache = !cache } in
+        let (o, cache') = decode_with_atom_cache cfg long_of_coded (bytes_of_hex (String.trim h)) in
+        cache := cache';
+        match o with
+        | HDOk (c, p) -> Printf.sprintf "ok %s | %s" (term_str c) (match p with Some x -> term_str x | None -> "-")
+        | HDErr k -> "err " ^ dkind_str k
+        | HDTrailing n -> "err trailing:" ^ udec_of_n n) (String.split_on_char ',' rest) in
+      String.concat " ;; " outs
+  | "hdrchk" ->
+      (* model-only: `hdrchk <term> | <term> || <hex>` — do the bytes equal encode_multi for the atom order they carry? *)
+      (match Str.split (Str.regexp_string " || ") rest with
+       | [ts; h] ->
+           let terms = List.map (term_of_string cmp_owned) (Str.split (Str.regexp_string " | ") ts) in
+           let data = bytes_of_hex h in
+           (* read the atom order off the header *)
+           let order = (match data with
+             | _ :: tag :: n :: r when int_of_n tag = 68 && int_of_n n > 0 ->
+                 let nn = int_of_n n in
+                 let flags_len = nn / 2 + 1 in
+                 let rec drop k l = if k = 0 then l else drop (k - 1) (List.tl l) in
+                 let flags = List.filteri (fun i _ -> i < flags_len) r in
+                 let long = (int_of_n (List.nth flags (flags_len - 1))) land (if nn mod 2 = 0 then 1 else 16) <> 0 in
+                 let rec entries k l acc = if k = 0 then List.rev acc else
+                   (match l with
+                    | _idx :: r1 ->
+                        let (alen, r2) = if long then (match r1 with a :: b :: r2 -> (int_of_n a * 256 + int_of_n b, r2) | _ -> failwith "hdr")
+                                         else (match r1 with a :: r2 -> (int_of_n a, r2) | _ -> failwith "hdr") in
+                        let txt = List.filteri (fun i _ -> i < alen) r2 in
+                        entries (k - 1) (drop alen r2) (txt :: acc)
+                    | [] -> failwith "hdr") in
+                 entries nn (drop flags_len r) []
+             | _ -> []) in
+           (match encode_multi order terms with
+            | HOk b -> if b = data then "match" else "MISMATCH model=" ^ hex_of_bytes b
+            | HErr e -> "model-err " ^ eerr_str e
+            | HTooManyAtoms n -> "model-toomany " ^ udec_of_n n)
+       | _ -> failwith "hdrchk")
   | "dect" -> (match words rest with
                | h :: tl ->
                    (match bytes_of_hex h with
